@@ -29,7 +29,9 @@ EOF = rec(0x000A, b"")
 FORMULA_STRING_STUB = bytes([0, 0, 0, 0, 0, 0, 0xFF, 0xFF]) + struct.pack("<HI", 0, 0) + bytes([3, 0, 0x1E, 1, 0])
 
 def cell_records(cell):
-    """cell = ('sst', row, col, isst) | ('label', row, col, hb, units) | ('fstring', row, col, hb, units)"""
+    """cell = ('sst', row, col, isst) | ('label', row, col, hb, units) | ('fstring', row, col, hb, units)
+    | ('fstringc', row, col, STRING body, [CONTINUE body, ...])   a formula's string result whose STRING
+      record is followed by CONTINUE records (bodies from the extracted Coq writer fstring_encode)"""
     k = cell[0]
     if k == "sst":
         return rec(0x00FD, struct.pack("<HHHI", cell[1], cell[2], 15, cell[3]))
@@ -38,6 +40,9 @@ def cell_records(cell):
     if k == "fstring":
         return (rec(0x0006, struct.pack("<HHH", cell[1], cell[2], 15) + FORMULA_STRING_STUB)
                 + rec(0x0207, xl_string(cell[3], cell[4])))
+    if k == "fstringc":
+        return (rec(0x0006, struct.pack("<HHH", cell[1], cell[2], 15) + FORMULA_STRING_STUB)
+                + rec(0x0207, cell[3]) + b"".join(rec(0x003C, c) for c in cell[4]))
     raise ValueError(k)
 
 def sst_records(data, conts):
